@@ -89,6 +89,15 @@ def _create_merge_candidates(merge_expr: exp.Merge) -> exp.Expression:
             target_ref = target_tbl.args.get("alias") or target_tbl
             case_when_clauses.append(f"WHEN {target_ref}.rowid is NULL {predicate} THEN {w_idx}")
 
+    # the mutation statements only see merge_candidates: they also need the source columns that the SET and VALUES
+    # expressions use inside larger expressions
+    values.update(
+        str(c)
+        for w in merge_expr.expressions
+        for c in w.args["then"].find_all(exp.Column)
+        if isinstance(table := c.args.get("table"), exp.Identifier) and checks.equal(table, source_id)
+    )
+
     sql = f"""
     CREATE OR REPLACE TEMPORARY TABLE merge_candidates AS
     SELECT
